@@ -7,3 +7,6 @@ theories/SyncFut/Spec.vos theories/SyncFut/Spec.vok theories/SyncFut/Spec.requir
 theories/SyncFut/Inv.vo theories/SyncFut/Inv.glob theories/SyncFut/Inv.v.beautified theories/SyncFut/Inv.required_vo: theories/SyncFut/Inv.v theories/SyncFut/Model.vo theories/SyncFut/Spec.vo
 theories/SyncFut/Inv.vio: theories/SyncFut/Inv.v theories/SyncFut/Model.vio theories/SyncFut/Spec.vio
 theories/SyncFut/Inv.vos theories/SyncFut/Inv.vok theories/SyncFut/Inv.required_vos: theories/SyncFut/Inv.v theories/SyncFut/Model.vos theories/SyncFut/Spec.vos
+theories/SyncFut/QueueStep.vo theories/SyncFut/QueueStep.glob theories/SyncFut/QueueStep.v.beautified theories/SyncFut/QueueStep.required_vo: theories/SyncFut/QueueStep.v theories/SyncFut/Model.vo theories/SyncFut/Spec.vo theories/SyncFut/Inv.vo
+theories/SyncFut/QueueStep.vio: theories/SyncFut/QueueStep.v theories/SyncFut/Model.vio theories/SyncFut/Spec.vio theories/SyncFut/Inv.vio
+theories/SyncFut/QueueStep.vos theories/SyncFut/QueueStep.vok theories/SyncFut/QueueStep.required_vos: theories/SyncFut/QueueStep.v theories/SyncFut/Model.vos theories/SyncFut/Spec.vos theories/SyncFut/Inv.vos
